@@ -37,6 +37,16 @@ CHECKS = {
         note=TB + "the theorems cover the accounting after input selection (selection is C14 / C09); the hypotheses "
                   "(selected inputs cover the request, packing size-break not taken) are checked per scenario by the "
                   "differential run; liveness for ADA-only wallets is evaluated on the implementation only."),
+    "C07": dict(
+        text="Lean theorems (Mathlib Rat / ceil / floor) over the exact-rational model of utils.fee / max_tx_fee / "
+             "tiered_reference_script_fee: fee = sum of exact ceilings; tier fee = ceiling of the closed form over k full "
+             "tiers with loop termination; ledger minimum <= fee <= ledger minimum + 2 for integer coefficients; "
+             "monotonicity in the size; CBOR head lengths monotone. Tied to /repo by differential runs on rational grids. "
+             "Sufficiency and tightness of built transactions are evaluated on the final signed bytes with Fractions.",
+        ref="3 C07", technique="Lean 4 proof (fee formulas over exact rationals) + model/implementation correspondence; built-transaction sufficiency by direct evaluation",
+        note=TB + "PARTIAL: the two-pass estimate inside build() is not modelled; sufficiency / tightness of built "
+                  "transactions are decided by evaluation of the implementation against the exact ledger minimum "
+                  "(recorded defect KF-C07-width-boundary); float-valued protocol parameters are not exercised."),
     "C08": dict(
         text="Lean theorems over the models of TransactionOutput serialization, min_lovelace_post_alonzo, the negative-"
              "quantity refusal and _calc_change / token packing: minimum-ADA formula; independence of the minimum from the "
